@@ -227,6 +227,9 @@ func simplify(c Case, f []float64) error {
 				return fmt.Errorf("n=%d: indexes %v", n, idx)
 			}
 		}
+		for i := range idx {
+			idx[i] = -7 - i
+		}
 		return nil
 	}
 	if len(idx) < 2 || idx[0] != 0 || idx[len(idx)-1] != n-1 {
@@ -270,6 +273,14 @@ func simplify(c Case, f []float64) error {
 	again := xy.SimplifyFlatCoords(flat(kept, c.Stride), math.Ldexp(thr, curExp), c.Stride)
 	if len(again) != len(kept) {
 		return fmt.Errorf("simplifying the simplified line again dropped %d more points (%v of %d)", len(kept)-len(again), again, len(kept))
+	}
+	// the index lists returned belong to the caller (who may turn them into offsets in
+	// place): overwriting them must not show in any later call
+	for i := range idx {
+		idx[i] = -7 - i
+	}
+	for i := range again {
+		again[i] = -7 - i
 	}
 	return nil
 }
